@@ -1,6 +1,7 @@
 package rules
 
 import (
+	"os"
 	"fmt"
 	"go/token"
 	"go/types"
@@ -438,6 +439,7 @@ func checkC04(c *Ctx) {
 	c.ruleDeadlineRounding("C04-R10")
 	c.rulePoppedBucketDrained("C04-R11")
 	c.ruleItemKeepsExactDeadline("C04-R12")
+	c.ruleSweepGateCoherent("C04-R13")
 
 	// R8: slices that are binary-searched stay sorted
 	ru8 := c.R.Rule("C04-R8", "a slice field that is binary-searched with sort.Search is only modified in order-preserving ways: append followed by a sort, or deletion by append(s[:i], s[i+1:]...); a whole element is never overwritten in place (swap-with-last removal breaks the order the search relies on)", "E11 shape rule on writes to sort.Search'ed members", 1)
@@ -915,6 +917,144 @@ func (c *Ctx) rulePoppedBucketDrained(id string) {
 func innerOf(loops []*core.Loop, l *core.Loop, b *ssa.BasicBlock) bool {
 	in := core.InnermostLoop(loops, b)
 	return in == l
+}
+
+// ruleSweepGateCoherent implements C04-R13. Where an implementation of List.Expire decides from a scalar field of the
+// list alone (a remembered "earliest deadline", a counter) — not from the ordered structure — that nothing is due,
+// that field is a summary of the structure and must follow it: every function that pushes a bucket onto the heap either
+// updates the field on the way out or has compared against it. A summary refreshed only in some cases (when the heap was
+// empty) makes the sweep overlook an entry registered with an earlier deadline until a later bucket comes due.
+func (c *Ctx) ruleSweepGateCoherent(id string) {
+	ru := c.R.Rule(id, "a scalar field of a timeout list that lets Expire return before it has looked at the ordered structure (a remembered earliest deadline) is kept coherent with that structure: on every path of every function that pushes a bucket onto the heap, the field is written after the push or has been compared with the new deadline; otherwise entries registered with an earlier deadline than the remembered one are not expired when due", "E1 paths from heap.Push to exit + E3 provenance of the gating condition (positive control: Expire implementations inspected)", 1)
+	ru0 := c.R.Rule(id+"-anchors", "anchors", "", 0)
+	h := c.hashAnchors(ru0)
+	push := c.fo(ru, "container/heap", "Push")
+	if h == nil || push == nil {
+		return
+	}
+	impls := c.P.Implementations(h.listExpire)
+	if !ru.Anchor(len(impls) > 0, "implementations of expiration.List.Expire") {
+		return
+	}
+	// a read of field idx of a struct of type t: plain load or sync/atomic load
+	fieldRead := func(v ssa.Value) (*ssa.FieldAddr, bool) {
+		switch x := v.(type) {
+		case *ssa.UnOp:
+			if x.Op == token.MUL {
+				if fa, ok := x.X.(*ssa.FieldAddr); ok {
+					return fa, true
+				}
+			}
+		case *ssa.Call:
+			if g := x.Call.StaticCallee(); g != nil && g.Pkg != nil && g.Pkg.Pkg.Path() == "sync/atomic" && len(x.Call.Args) > 0 {
+				if fa, ok := x.Call.Args[0].(*ssa.FieldAddr); ok {
+					return fa, true
+				}
+			}
+		}
+		return nil, false
+	}
+	isScalar := func(t types.Type) bool {
+		_, ok := derefT(t).Underlying().(*types.Basic)
+		return ok
+	}
+	for _, e := range impls {
+		if len(e.Blocks) == 0 || len(e.Params) == 0 {
+			continue
+		}
+		c.R.Fn(c.fname(e))
+		recvT := derefT(e.Params[0].Type())
+		key := "gates of " + c.fname(e)
+		gates := map[int]*ssa.If{}
+		for _, b := range e.Blocks {
+			iff, ok := b.Instrs[len(b.Instrs)-1].(*ssa.If)
+			if !ok {
+				continue
+			}
+			var scalar *ssa.FieldAddr
+			structural := false
+			depReaches(iff.Cond, func(v ssa.Value) bool {
+				if fa, ok := fieldRead(v); ok && types.Identical(derefT(fa.X.Type()), recvT) {
+					if isScalar(fa.Type()) {
+						scalar = fa
+					} else if !isMutexType(derefT(fa.Type())) {
+						structural = true
+					}
+				}
+				if fa, ok := v.(*ssa.FieldAddr); ok && types.Identical(derefT(fa.X.Type()), recvT) && !isScalar(fa.Type()) && !isMutexType(derefT(fa.Type())) {
+					structural = true // &l.heap handed to a method
+				}
+				return false
+			})
+			if scalar != nil && !structural {
+				gates[scalar.Field] = iff
+			}
+		}
+		if len(gates) == 0 {
+			ru.OK(key, c.where(e, e), "every decision of the sweep reads the ordered structure")
+			continue
+		}
+		for fld, iff := range gates {
+			fname := fieldNameOf(e.Params[0].Type(), fld)
+			isF := func(a ssa.Value) bool {
+				fa, ok := a.(*ssa.FieldAddr)
+				return ok && fa.Field == fld && types.Identical(derefT(fa.X.Type()), recvT)
+			}
+			nPush, bad := 0, ""
+			for _, f := range c.P.ModFuncs() {
+				if f.Package() != e.Package() {
+					continue
+				}
+				pushes := core.CallsTo(f, push)
+				if len(pushes) == 0 {
+					continue
+				}
+				paths, err := core.EnumPaths(f, core.PathOpts{})
+				if err != nil {
+					bad = err.Error()
+					continue
+				}
+				for _, p := range paths {
+					if _, ok := p.Exit.(*ssa.Return); !ok {
+						continue
+					}
+					pushedAt, wrote, compared := -1, false, false
+					for i, pi := range p.Instrs() {
+						if cl := core.CallOf(pi.In); cl != nil {
+							if cl.Is(push) {
+								pushedAt, wrote = i, false
+								nPush++
+							}
+							if g := cl.Static; g != nil && g.Pkg != nil && g.Pkg.Pkg.Path() == "sync/atomic" && len(cl.Common.Args) > 1 && isF(cl.Common.Args[0]) {
+								wrote = true
+							}
+						}
+						if st, ok := pi.In.(*ssa.Store); ok && isF(st.Addr) {
+							wrote = true
+						}
+					}
+					if pushedAt < 0 {
+						continue
+					}
+					for _, d := range decisions(p) {
+						if os.Getenv("WASPCHECK_DEBUG") != "" {
+							fmt.Fprintf(os.Stderr, "R13 decision %T %s\n", d.Cond, core.Term(d.Cond))
+						}
+						if depReaches(d.Cond, func(v ssa.Value) bool {
+							fa, ok := fieldRead(v)
+							return ok && isF(fa)
+						}) {
+							compared = true
+						}
+					}
+					if !wrote && !compared {
+						bad = fmt.Sprintf("%s pushes a bucket and leaves without updating %s or comparing with it (%s): Expire, which trusts %s (test at %s), overlooks the new bucket if it is due earlier", c.fname(f), fname, fmtPath(p, c.P), fname, c.whereI(iff))
+					}
+				}
+			}
+			ru.Check(bad == "" && nPush > 0, "summary field "+fname+" of "+recvT.String(), c.whereI(iff), fmt.Sprintf("%d pushing path(s) keep it coherent", nPush), bad)
+		}
+	}
 }
 
 // ruleItemKeepsExactDeadline implements C04-R12.
